@@ -136,6 +136,8 @@ def gen_case(rng, model_key=None, loss=None, force=None):
             weights = np.round(rng.uniform(0.3, 2.5, size=(n, nobs)), 3).tolist()
             if nobs == 1 and rng.random() < 0.5:
                 weights = [v[0] for v in weights]           # one weight per observation as a flat vector
+        elif kind == 1 and nobs == 2 and rng.random() < 0.5:
+            weights = [0.5, 1.5]                                    # not unit weights, although they average to exactly one
         elif kind == 1:
             weights = np.round(rng.uniform(0.3, 2.5, size=nobs), 3).tolist() if nobs > 1 else round(float(rng.uniform(0.3, 2.5)), 3)
         else:
